@@ -1,0 +1,16 @@
+//go:build verif
+
+package publish
+
+import (
+	"net/http"
+	"net/url"
+)
+
+// VerifConfigure points the publisher at another API base URL and replaces
+// the network transport of its HTTP client, without retries.
+func (cf *CloudflarePublisher) VerifConfigure(base url.URL, rt http.RoundTripper) {
+	cf.baseURL = base
+	cf.client.HTTPClient = &http.Client{Transport: rt}
+	cf.client.RetryMax = 0
+}
